@@ -287,7 +287,7 @@ def main_paths(facts):
     fn = facts.funcs.get('cli_main')
     if fn is None:
         raise AnalysisError('anchor vanished: dfu.cli_main')
-    w = Walker(facts, name_results=True, inline='all', exits_end_paths=True)
+    w = Walker(facts, name_results=True, inline='all', exits_end_paths=True, guard_effects=True)
     w.opaque = {'cli_main'}
     _BARE.clear()
     _RV.clear()
@@ -444,8 +444,8 @@ def path_divmods(p, sym):
                 d.r_zero = True
             elif not zero_ok and nonzero_all:
                 d.r_zero = False
-            elif zero_ok and nonzero_all:
-                d.r_free = True
+            elif zero_ok and alive:
+                d.r_free = True                   # taken for r == 0 and for some r != 0 alike
         out.append(d)
     cache[id(sym.raw)] = (sym.raw, out)
     return out
@@ -551,6 +551,14 @@ def protocol_events(path, consts):
                 out.append(('EXIT', i, site or ev[2], v[2]))
             elif v[0] == 'call' and v[1] in ('time.sleep', 'sleep'):
                 out.append(('SLEEP', i, site or ev[2], v[2][0] if v[2] else None))
+        elif ev[0] == 'guarded':
+            # a call made only when a condition holds (the walk did not fork on it): a conditional sleep is ('GSLEEP', .., (arg, test, pol))
+            inner = ev[3]
+            if inner[0] == 'mcall' and inner[2] == 'ctrl_transfer':
+                raise Undecided('a control transfer is issued under a condition the walk did not fork on (line {})'.format(getattr(ev[-1], 'lineno', '?')))
+            v = strip(inner[1]) if inner[0] == 'expr' else None
+            if v is not None and v[0] == 'call' and v[1] in ('time.sleep', 'sleep'):
+                out.append(('GSLEEP', i, site or ev[4], (v[2][0] if v[2] else None, ev[1], ev[2])))
     path._proto = out
     return out
 
@@ -1098,9 +1106,21 @@ def buffer_copy(v):
     """The operand of bytes(x) / bytearray(x) / memoryview(x) when x is itself a buffer expression (not a length, not a list)."""
     if v[0] == 'call' and v[1] in BUFFER_COPIES and len(v[2]) == 1 and not v[3] and isinstance(v[2][0], tuple):
         a = v[2][0]
-        if a[0] in ('res', 'accum', 'mcall') or (a[0] == 'bin' and a[1] == '+') or (a[0] == 'call' and a[1] in BUFFER_COPIES):
+        if a[0] in ('res', 'accum', 'mcall') or (a[0] == 'call' and a[1] in BUFFER_COPIES):
             return a
+        if a[0] == 'bin' and a[1] == '+' and (_leaf_in_sum(a)):
+            return a                  # bytes(buffer + padding); bytes(n + 1) is n + 1 zero bytes
     return None
+
+
+def _leaf_in_sum(a):
+    """Is one operand of the (nested) sum a buffer: a bound value, an accumulation, a byte-string constant, a copy of one?"""
+    if a[0] == 'bin' and a[1] == '+':
+        return _leaf_in_sum(a[2]) or _leaf_in_sum(a[3])
+    if a[0] in ('res',):
+        return strip(a)[0] not in ('const', 'bin', 'un', 'unpack') and not (strip(a)[0] == 'call' and strip(a)[1] in ('len', 'int'))
+    return a[0] == 'accum' or (is_const(a) and isinstance(a[1], (bytes, bytearray))) or (a[0] == 'call' and a[1] in BUFFER_COPIES) \
+        or (a[0] == 'bin' and a[1] == '*' and any(is_const(x) and isinstance(x[1], bytes) for x in (a[2], a[3])))
 
 
 def buffer_leaf(v):
@@ -1123,34 +1143,65 @@ def buffer_leaf(v):
     return None
 
 
-def whole_file_read(raw):
-    """Is the value the image length is taken from the whole content of the file?  (True, '') for `f.read()` / `f.read(-1)` /
-    `f.read(None)` / `path.read_bytes()`; (False, why) for a read that is capped (`f.read(n)`): its length is min(file size, n), so
-    a guard on it says nothing about the file; (None, why) for anything else."""
+def classify_read(raw):
+    """What a bound buffer is with respect to the file: ('whole', '') for `f.read()` / `f.read(-1)` / `f.read(None)` /
+    `path.read_bytes()` (possibly copied into bytes / bytearray / memoryview); ('capped', text) for `f.read(n)`; ('stripped', method)
+    for x.rstrip(..) / strip / lstrip / removesuffix / removeprefix of a read; ('slice', text) for a slice of what was read;
+    (None, why) for anything else."""
     v = strip(raw)
     while buffer_copy_of_read(v) is not None:
         v = strip(buffer_copy_of_read(v))
     if v[0] == 'slice':
-        return False, 'the firmware buffer is a slice of what was read ({}): the length that is guarded is not the length of the file'.format(show(v)[:60])
+        return 'slice', show(v)[:60]
     if v[0] != 'mcall':
         return None, 'the firmware buffer is not the result of a read call: {}'.format(show(v)[:60])
     meth, args, kwargs = v[2], v[3], v[4] if len(v) > 4 else ()
     if meth in ('rstrip', 'strip', 'lstrip', 'removesuffix', 'removeprefix') and strip(v[1])[0] == 'mcall' and strip(v[1])[2] in ('read', 'read_bytes'):
-        return False, ('the firmware is {}()-ed after reading and the size guard looks at what is left: a file larger than the flash whose tail is stripped '
-                       'is accepted, although it is the file that must fit').format(meth)
+        return 'stripped', meth
     if meth == 'read_bytes' and not args:
-        return True, ''
+        return 'whole', ''
     if meth == 'read':
         if kwargs:
             return None, 'read() with keyword arguments'
         if not args:
-            return True, ''
+            return 'whole', ''
         if len(args) == 1 and is_const(args[0]) and (args[0][1] is None or (isinstance(args[0][1], int) and args[0][1] < 0)):
-            return True, ''
+            return 'whole', ''
         if len(args) == 1:
-            return False, 'the firmware is read with {}: at most that many bytes arrive, so a file larger than that is cut short and its real size is never seen'.format(
-                show(v)[-60:])
+            return 'capped', show(v)[-60:]
     return None, 'the firmware buffer comes from {}()'.format(meth)
+
+
+def whole_file_read(raw):
+    """Is the value the image length is taken from the whole content of the file?  (True, '') ; (False, why) for a read that is
+    capped (`f.read(n)`: its length is min(file size, n), so a guard on it says nothing about the file), stripped or sliced;
+    (None, why) for anything else."""
+    kind, text = classify_read(raw)
+    if kind == 'whole':
+        return True, ''
+    if kind == 'slice':
+        return False, 'the firmware buffer is a slice of what was read ({}): the length that is guarded is not the length of the file'.format(text)
+    if kind == 'stripped':
+        return False, ('the firmware is {}()-ed after reading and the size guard looks at what is left: a file larger than the flash whose tail is stripped '
+                       'is accepted, although it is the file that must fit').format(text)
+    if kind == 'capped':
+        return False, 'the firmware is read with {}: at most that many bytes arrive, so a file larger than that is cut short and its real size is never seen'.format(text)
+    return None, text
+
+
+def flashed_image_is_file(raw):
+    """Is the buffer that is padded and written the content of the firmware file?  (True, '') / (False, what it is instead) /
+    (None, why it is not known)."""
+    kind, text = classify_read(raw)
+    if kind == 'whole':
+        return True, ''
+    if kind == 'slice':
+        return False, 'a slice of what was read ({})'.format(text)
+    if kind == 'stripped':
+        return False, 'what is left of the file after {}(): the bytes taken off are not written, and the zero padding starts where they began'.format(text)
+    if kind == 'capped':
+        return False, 'at most the first bytes of the file ({})'.format(text)
+    return None, text
 
 
 def buffer_copy_of_read(v):
@@ -1177,7 +1228,7 @@ class DivMod:
         self.a, self.b, self.q, self.r = a, b, q, r       # symbolic terms (q or r may be None when only one of them is used)
         self.pa = self.pb = None                          # polynomials of a and b
         self.r_zero = None                                # True: the path has r == 0 ; False: r != 0 ; None: not known
-        self.r_free = False                               # the branch conditions were read and allow both r == 0 and r != 0
+        self.r_free = False                               # the branch conditions were read and allow r == 0 as well as some r != 0
 
 
 class Sym:
@@ -1474,12 +1525,22 @@ def divide(r, s):
     return Poly(out)
 
 
+def calls_something(v):
+    """Does evaluating the expression call anything but a handful of pure builtins?  Bound results ('res') are values already."""
+    if not isinstance(v, tuple) or not v or v[0] in ('res', 'const'):
+        return False
+    if v[0] in ('mcall', 'callv') or (v[0] == 'call' and v[1] not in ('len', 'range', 'int', 'bytes', 'bytearray', 'min', 'max', 'divmod')):
+        return True
+    return any(calls_something(x) for x in v[1:])
+
+
 class PageLoop:
     """A `for` loop that runs once per page: idx (LOOP event), node (ast.For), rng (the range(...) value it runs over), values
     ({havoc symbol of a loop variable: its value as a polynomial in PAGE})."""
 
-    def __init__(self, idx, node, rng, values):
+    def __init__(self, idx, node, rng, values, terms=None):
         self.idx, self.node, self.rng, self.values = idx, node, rng, values
+        self.terms = terms or {}       # havoc symbol of a loop variable -> (element expression of the comprehension, {its variable: polynomial})
 
 
 class PathModel:
@@ -1541,6 +1602,7 @@ class PathModel:
         """({havoc symbol: polynomial in PAGE}, range value) for the targets of a loop over range(..) / enumerate(..) / a
         comprehension over such, or None."""
         tag = 'loop@{}'.format(node.lineno)
+        terms = {}
 
         def shape(target, it):
             """(values, range value, polynomial of the element bound to `target` or None when target is a pattern)."""
@@ -1571,13 +1633,14 @@ class PathModel:
                 sub = Sym(sym.consts, [], sym.raw)
                 sub.divmods = sym.divmods
                 sub.var_values = {its[3]: inner[2]}
-                if any(t[0] in ('call', 'mcall', 'callv') for t in find_all(its[2], lambda t: t[0] in ('call', 'mcall', 'callv'))):
-                    return None
+                if calls_something(its[2]):
+                    return None                       # the element expression calls something: evaluated once, before the loop
                 val = sub.poly(its[2])
+                terms[('havoc', target.id, tag)] = (its[2], {its[3]: inner[2]})
                 return {('havoc', target.id, tag): val}, inner[1], val
             return None
         got = shape(node.target, it)
-        return None if got is None else (got[0], got[1])
+        return None if got is None else (got[0], got[1], terms)
 
     def page_loop(self, req, raw=None):
         """PageLoop of the innermost loop enclosing the request.  None when the request is not inside any loop; no verdict when it
@@ -1594,7 +1657,7 @@ class PathModel:
         if got is None:
             raise Undecided('the {} request at line {} sits in a loop over {} which is not a range(..) the rules can follow'.format(
                 req.kind, req.line, show(it)[:80]))
-        return PageLoop(idx, node, got[1], got[0])
+        return PageLoop(idx, node, got[1], got[0], got[2])
 
     def base_sym(self, raw=None):
         sym = Sym(self.consts, [], raw)
@@ -1618,9 +1681,20 @@ class PathModel:
     def data_shape(self, req, probe=False):
         """(FW, lo poly, hi poly, S poly, raw) for a DATA request, or a string saying why the payload is positively not a page-sized
         slice; no verdict when the chunk is not followed back to the firmware buffer."""
-        code = strip(req.payload)
-        while buffer_copy(code) is not None or (code[0] == 'call' and code[1] in BUFFER_COPIES and len(code[2]) == 1 and strip(code[2][0])[0] == 'slice'):
-            code = strip(code[2][0])
+        def peel(code):
+            code = strip(code)
+            while buffer_copy(code) is not None or (code[0] == 'call' and code[1] in BUFFER_COPIES and len(code[2]) == 1 and strip(code[2][0])[0] in ('slice', 'havoc')):
+                code = strip(code[2][0])
+            return code
+        code = peel(req.payload)
+        var_values = {}
+        if code[0] == 'havoc':
+            # the chunk is the variable of a loop over a list of chunks written as a comprehension: the element expression, with the
+            # comprehension variable standing for its value in that iteration
+            pl = self.page_loop(req)
+            if pl is not None and code in pl.terms:
+                elt, var_values = pl.terms[code]
+                code = peel(elt)
         if code[0] != 'slice':
             if buffer_leaf(code) is not None and code[0] in ('res', 'accum', 'bin'):
                 return 'the payload {} is the whole buffer, not a page-sized slice of it'.format(show(code)[:60])
@@ -1640,6 +1714,7 @@ class PathModel:
         if probe:
             return fw, None, None, None, raw
         sym = self.sym_for(req, raw)
+        sym.var_values.update(var_values)
         lo = sym.poly(code[2]) if code[2] != C(None) else Poly.const(0)
         if code[3] == C(None):
             if strip(fw)[0] == 'slice':
@@ -1658,19 +1733,26 @@ class PathModel:
                     out.append((idx, node, payload[1], g))
         return out
 
-    def unread_inequalities(self, sym, before_idx):
+    def unread_inequalities(self, sym, before_idx, lengths=False):
         """Branch conditions before `before_idx` that compare sizes the rules cannot relate to the firmware length (an inequality
-        whose terms are calls / lookups that are not followed): a size guard may hide in them."""
+        whose terms are calls / lookups that are not followed): a size guard may hide in them.  With `lengths` a comparison of
+        the length of a bound buffer counts as read."""
         out = []
         for kind, idx, node, payload in self.evs:
             if kind == 'COND' and idx < before_idx:
                 g = sym.gt(payload[0])
-                if g is not None and not mentions(g, LEN) and any(opaque_symbol(s_) for k in g.terms for s_ in k):
+                if g is None or mentions(g, LEN):
+                    continue
+                syms = [s_ for k in g.terms for s_ in k]
+                if lengths and any(isinstance(s_, tuple) and s_ and s_[0] == 'len' for s_ in syms):
+                    continue
+                if any(opaque_symbol(s_) for s_ in syms):
                     out.append((idx, node, payload[0]))
         return out
 
     def gd32_letter(self):
-        """Serial-number letter this path is specialised to by an `sn[2] == 'X'` test, or None."""
+        """Serial-number letter this path is specialised to by an `sn[2] == 'X'` test (or any other test from which the walk learnt
+        that sn[2] equals one letter: `sn[2] in ('X',)`, a membership test forked per element), or None."""
         for t, pol, node in self.p.conds:
             t = strip(t)
             if pol and t[0] == 'cmp' and t[1] == '==':
@@ -1678,6 +1760,9 @@ class PathModel:
                     sx = strip(x)
                     if is_const(y) and isinstance(y[1], str) and len(y[1]) == 1 and sx[0] == 'sub' and sx[2] == C(2):
                         return y[1], node
+            if pol and t[0] == 'cmp' and t[1] == 'in' and strip(t[2])[0] == 'sub' and strip(t[2])[2] == C(2) and t[3][0] in ('tuple', 'list', 'set') \
+                    and len(t[3][1]) == 1 and is_const(t[3][1][0]) and isinstance(t[3][1][0][1], str) and len(t[3][1][0][1]) == 1:
+                return t[3][1][0][1], node
         return None
 
 
@@ -1703,7 +1788,8 @@ def understood(poly, sym, extra=()):
     variables and the symbols in `extra`?  A residue over anything else (the result of a call, a lookup, ...) proves nothing."""
     known = set(extra)
     for d in sym.divmods:
-        known.update(x for x in (d.q, d.r) if x is not None)
+        if d.q is not None and d.r is not None:
+            known.update((d.q, d.r))
     for mono in poly.terms:
         for s_ in mono:
             if s_ in known:
